@@ -44,6 +44,8 @@ func NewBarrier(count int, f func(msgTs uint64, b *Barrier), u func(vchannel str
 		for current < barrier.Dest {
 			select {
 			case <-barrier.CloseChan:
+				// the barrier is closed before all signals arrive, the replication of the object has been stopped
+				return
 			case signal := <-barrier.BarrierSignalChan:
 				if u != nil {
 					u(signal.VChannel, signal.Msg)
